@@ -422,6 +422,14 @@ def inline_helpers(doc, log):
                         if tail is not None and not under_try and tail.get("k") not in ("tuple", "path", "lit"):
                             out.append({"k": "semi", "e": tail, "ln": s.get("ln", 0)})
                         changed = done = True
+            if not done and k == "expr" and e is not None and s is blk["stmts"][-1]:
+                # the block's value is the helper's value
+                r = expand(e, owner, False)
+                if r is not None and r[1] is not None:
+                    body, tail = r
+                    out.extend(body)
+                    out.append({"k": "expr", "e": tail, "ln": s.get("ln", 0)})
+                    changed = done = True
             if not done and k == "semi" and e is not None and e.get("k") == "assign" and isinstance(e.get("r"), dict):
                 r = expand(e["r"], owner, False)
                 if r is not None and r[1] is not None:
